@@ -250,7 +250,9 @@ def main():
     os.makedirs(os.path.join(VERIF, "evidence", "replay"), exist_ok=True)
     lines = []
     for o, f, kf in known_hits:
-        lines.append("KNOWN-FINDING: property=%s %s" % (prop, kf["what"]))
+        ln = "KNOWN-FINDING: property=%s %s" % (prop, kf["what"])
+        if ln not in lines:
+            lines.append(ln)
     n_viol = 0
     if not inconclusive:
         for o, fails in violations:
